@@ -119,7 +119,8 @@ EXPORT errno_t _wcsicmp_s_chk(const wchar_t *restrict dest, rsize_t dmax,
     }
 
     /* fold bounded, terminated copies: wcsfc_s reads up to a terminator and
-       wants room for one whole expansion (4 + terminator) at every character */
+       wants room for one whole expansion (4 + terminator) at every character;
+       a character folds to at most three */
     l1 = 0;
     while (l1 < dmax && dest[l1])
         l1++;
@@ -132,7 +133,7 @@ EXPORT errno_t _wcsicmp_s_chk(const wchar_t *restrict dest, rsize_t dmax,
                                            (void *)dest, ESNOSPC);
         return RCNEGATE(ESNOSPC);
     }
-    d1 = (wchar_t *)malloc(((l1 + 1) + (2 * l1 + 5) + (l2 + 1) + (2 * l2 + 5)) *
+    d1 = (wchar_t *)malloc(((l1 + 1) + (3 * l1 + 5) + (l2 + 1) + (3 * l2 + 5)) *
                            sizeof(wchar_t));
     if (unlikely(!d1)) {
         invoke_safe_str_constraint_handler("wcsicmp_s: out of memory",
@@ -142,7 +143,7 @@ EXPORT errno_t _wcsicmp_s_chk(const wchar_t *restrict dest, rsize_t dmax,
     {
         wchar_t *c1 = d1;                  /* copy of dest */
         wchar_t *f1 = c1 + l1 + 1;         /* folded dest */
-        wchar_t *c2 = f1 + 2 * l1 + 5;     /* copy of src */
+        wchar_t *c2 = f1 + 3 * l1 + 5;     /* copy of src */
         wchar_t *f2 = c2 + l2 + 1;         /* folded src */
         rsize_t n1 = l1, n2 = l2;
         memcpy(c1, dest, n1 * sizeof(wchar_t));
@@ -150,13 +151,13 @@ EXPORT errno_t _wcsicmp_s_chk(const wchar_t *restrict dest, rsize_t dmax,
         memcpy(c2, src, n2 * sizeof(wchar_t));
         c2[n2] = L'\0';
         d2 = NULL;
-        rc = wcsfc_s(f1, 2 * n1 + 5, c1, &l1);
+        rc = wcsfc_s(f1, 3 * n1 + 5, c1, &l1);
         if (rc == EOK)
-            rc = wcsfc_s(f2, 2 * n2 + 5, c2, &l2);
+            rc = wcsfc_s(f2, 3 * n2 + 5, c2, &l2);
         if (rc == EOK)
-            rc = _wcscmp_s_chk(f1, 2 * n1 + 5, f2, 2 * n2 + 5, resultp,
-                               (2 * n1 + 5) * sizeof(wchar_t),
-                               (2 * n2 + 5) * sizeof(wchar_t));
+            rc = _wcscmp_s_chk(f1, 3 * n1 + 5, f2, 3 * n2 + 5, resultp,
+                               (3 * n1 + 5) * sizeof(wchar_t),
+                               (3 * n2 + 5) * sizeof(wchar_t));
     }
     free(d1);
     free(d2);
